@@ -142,7 +142,7 @@ CHECKS = [
      "technique": "Coq proof (inductive invariants / step characterisation over all histories) + differential correspondence of Model/Relay.v against the real turn.Server under virtual time, property predicate evaluated on the observed traces"},
     {"property_id": "C15",
      "text": 'Coq theorems: every step changes allocations/permissions/channels by exactly the net Created-Deleted callbacks, hence over every history callbacks balance against what exists and pair up when all has ended; chk_C15 on real traces for every teardown cause: expiry, Refresh 0, relay socket error, control connection closed (stream listeners), Server.Close, and traffic sent after Close. The observed listing accounts for every open socket/listener of the simulated network (open iff the server\'s own or the relay of a live allocation); timers and goroutines are observed only through their effects and the synctest bubble draining (partial).'
-             + ' History level: chk_C15 (balance after every step; a closed control connection\'s client has no allocation; after Server.Close the listing is empty and nothing happens any more) is proved to hold on every trace of the model; C15_control_connection_close, C15_server_close_leaves_nothing, C15_nothing_after_close. Teardown during a slow lifecycle callback: the forced schedules of the allocation package (threads parked inside the Created callbacks) are judged by Check/C15TdCheck.v (nothing published remains and callbacks pair up once every call has returned) - on the real code only, no theorem (partial).',
+             + ' History level: chk_C15 (balance after every step; a closed control connection\'s client has no allocation; after Server.Close the listing is empty and nothing happens any more) is proved to hold on every trace of the model; C15_control_connection_close, C15_server_close_leaves_nothing, C15_nothing_after_close. Teardown during a slow lifecycle callback: on Model/Teardown.v, for every interleaving, if every AddPermission/AddChannelBind call has nothing left to publish while the allocation is open, then once all calls have returned and the allocation is closed both tables are empty (C15_quiet_close_leaves_nothing), lifted to every forced macro schedule (C15_slow_callback_maps_on_every_model_trace); the hypotheses orders_ok / callbacks_last / close_shape_ok are evaluated on the step orders the translator extracts from the source on every run, and the forced schedules of the allocation package (threads parked inside the Created callbacks) are replayed on the model under those orders and judged by Check/C15TdCheck.v; the pairing of Created and Deleted callbacks in those schedules is checked on the real code only (partial).',
      "note": RELAY_NOTE,
      "technique": "Coq proof (inductive invariants / step characterisation over all histories) + differential correspondence of Model/Relay.v against the real turn.Server under virtual time, property predicate evaluated on the observed traces"},
     {"property_id": "C19",
